@@ -161,6 +161,18 @@ def run(prog, rep, tier):
             e = expr_of(body, op)
             ok = body.impl_trait == 'std::default::Default' and e[0] == 'call' and e[2].cmethod == 'default'
             rep.ob('R04.2', ok, key, 'EncryptionReaderConfig built by Default with mode = Default::default()' if ok else 'EncryptionReaderConfig constructed with a mode not from Default', body.loc(bb, i))
+        elif s.rv.r == 'aggregate' and 'decryption_mode' not in (s.rv.j.get('fields') or []):
+            # the mode lives in a nested state record built by a private constructor: looked for in the function with its helpers spliced in
+            from ..inline import inlined_body as _inl
+            ib_ = _inl(prog, body)
+            cands_ = [(bl_.idx, st_) for bl_ in ib_.blocks if not bl_.cleanup for st_ in bl_.stmts
+                      if st_.kind == 'assign' and st_.rv.r == 'aggregate' and 'decryption_mode' in (st_.rv.j.get('fields') or [])]
+            ok = bool(cands_)
+            for (_bb, st_) in cands_:
+                e = expr_of(ib_, st_.rv.ops[st_.rv.j['fields'].index('decryption_mode')])
+                if not (e[0] == 'place' and place_fields(e[1])[-1:] == ['failsafe_mode']):
+                    ok = False
+            rep.ob('R04.2', ok, key, 'reader mode copied from config.failsafe_mode' if ok else 'reader mode not taken from config.failsafe_mode', body.loc(bb, i))
         elif s.rv.r == 'aggregate':
             idx = s.rv.j['fields'].index('decryption_mode')
             op = s.rv.ops[idx]
